@@ -84,6 +84,7 @@ type Exec struct {
 	writeLog  []heapWrite
 	freshRefs map[string]bool // references allocated by this function
 	allSorts map[string]Sort // never rolled back
+	inlineStack []*ssa.Function // contract-less callees being executed in place
 }
 
 func (x *Exec) ghostInit(name string) Term {
@@ -1496,7 +1497,9 @@ func (x *Exec) phiValue(ph *ssa.Phi, b *ssa.BasicBlock, onlyBack, onlyFwd bool, 
 }
 
 func (x *Exec) execBlock(b *ssa.BasicBlock) {
-	x.vc.curBlock = b.Index
+	if len(x.inlineStack) == 0 {
+		x.vc.curBlock = b.Index
+	}
 	var st *State
 	var pc Term
 	if f, ok := x.forced[b]; ok {
